@@ -16,7 +16,7 @@ PAIR_KINDS = [("reverse", "as_tank"), ("reverse", "leak"), ("tleak", "reverse"),
               ("pdd", "leak"), ("pdd", "leak_window"), ("closed", "closed"), ("reverse", "reverse"), ("pat5", "pstart90m"),
               ("pat1", "pat30"), ("pat5", "pat2h"), ("pat1", "mult2"), ("pdd", "elev_high"), ("hyd15all", "small"),
               ("pat5", "hyd30"), ("dem2", "mult05"), ("reverse", "hpump1"), ("reverse", "valve"), ("pdd", "dem2"),
-              ("pat1", "clock3h"), ("demneg", "pdd"), ("lateopts", "pat30"), ("lateopts", "pat2h"), ("lateopts", "pstart90m"), ("lateopts", "pdd"), ("lateopts", "mult2"), ("lateopts", "hyd30"), ("lateopts", "interp"), ("lateopts", "clock3h"), ("lateopts", "headpat"), ("lateopts", "defpat"), ("pat0", "pdd"), ("pat0", "ctl_toggle"), ("pat0", "leak"), ("pat0", "interp"), ("defpat", "pstart90m"), ("defpat", "dem2"), ("defpat", "pdd"), ("defpat", "interp"), ("defpat", "pat1"), ("defpat", "mult2"), ("defpat", "ctl_toggle"), ("interp", "pat1"), ("interp", "pat5"), ("interp", "dem2"), ("interp", "pstart90m"), ("interp", "pat2h"), ("interp", "mult2"), ("interp", "headpat"), ("interp", "pdd"), ("ctl_toggle", "pat1"), ("ctl_toggle", "pat5"), ("ctl_toggle", "pdd"), ("ctl_toggle", "dem2"), ("ctl_toggle", "leak"), ("ctl_toggle", "mult2"), ("ctl_toggle", "pstart90m"), ("ctl_toggle", "hyd30"), ("ctl_toggle", "revorder"), ("revorder", "closed"), ("revorder", "leak"), ("revorder", "pdd"), ("revorder", "valve"), ("revorder", "cv"), ("revorder", "hpump1"), ("demneg", "mult2"), ("demneg", "pstart90m"), ("reverse", "small"), ("tleak", "small"), ("leak", "closed"), ("ppump", "hpump1"), ("ppump", "hpump3"), ("ppump", "valve")]
+              ("pat1", "clock3h"), ("demneg", "pdd"), ("lateopts", "pat30"), ("lateopts", "pat2h"), ("lateopts", "pstart90m"), ("lateopts", "pdd"), ("lateopts", "mult2"), ("lateopts", "hyd30"), ("lateopts", "interp"), ("lateopts", "clock3h"), ("lateopts", "headpat"), ("lateopts", "defpat"), ("pat0", "pdd"), ("pat0", "ctl_toggle"), ("pat0", "leak"), ("pat0", "interp"), ("defpat", "pstart90m"), ("defpat", "dem2"), ("defpat", "pdd"), ("defpat", "interp"), ("defpat", "pat1"), ("defpat", "mult2"), ("defpat", "ctl_toggle"), ("interp", "pat1"), ("interp", "pat5"), ("interp", "dem2"), ("interp", "pstart90m"), ("interp", "pat2h"), ("interp", "mult2"), ("interp", "headpat"), ("interp", "pdd"), ("ctl_toggle", "pat1"), ("ctl_toggle", "pat5"), ("ctl_toggle", "pdd"), ("ctl_toggle", "dem2"), ("ctl_toggle", "leak"), ("ctl_toggle", "mult2"), ("ctl_toggle", "pstart90m"), ("ctl_toggle", "hyd30"), ("ctl_toggle", "revorder"), ("revorder", "closed"), ("revorder", "leak"), ("revorder", "pdd"), ("revorder", "valve"), ("revorder", "cv"), ("revorder", "hpump1"), ("demneg", "mult2"), ("demneg", "pstart90m"), ("reverse", "small"), ("tleak", "small"), ("leak", "closed"), ("ppump", "hpump1"), ("ppump", "hpump3"), ("ppump", "valve"), ("demneg", "pddhi"), ("pddhi", "leak"), ("pddhi", "dem2")]
 
 
 def _named(a, b):
